@@ -62,6 +62,30 @@ static Expect expect_text(const Tag &t, const std::string &v, const std::string 
 	return e;
 }
 
+// The exponent the verifier raises component(s) of card `card` of the shuffled stack s2 to is a prover response that is
+// part of the recorded transcript: f_i (Groth: tag "f") resp. tau_i (Hoogh: tag "tau").  A twisted component -x behaves
+// like x exactly when that exponent is even.  card < 0: is any of them even?  Protocols without such lines: false.
+static bool has_stack_exponents(const std::vector<Tag> &tags)
+{
+	for (size_t i = 0; i < tags.size(); i++) if (tags[i].what == "f" || tags[i].what == "tau") return true;
+	return false;
+}
+static bool stack_exponent_even(const RunOut &H, const std::vector<Tag> &tags, int card)
+{
+	int k = 0;
+	bool any = false;
+	for (size_t i = 0; i < tags.size() && i < H.pv.size(); i++)
+	{
+		if (tags[i].what != "f" && tags[i].what != "tau") continue;
+		Z v;
+		bool even = v.parse(H.pv[i]) && !(mpz_get_ui(v) & 1UL);
+		if (k == card) return even;
+		any = any || even;
+		k++;
+	}
+	return card < 0 ? any : false;
+}
+
 int main(int argc, char **argv)
 {
 	Args A = parse(argc, argv);
@@ -76,7 +100,7 @@ int main(int argc, char **argv)
 	R.bound = "family=" + fam + " cells=" + str(S.size()) + " seeds/cell=" + str((A.tier == "thorough") ? 2 : 1);
 	R.max_samples = 3;
 	Ctr T;
-	uint64_t cells_done = 0, positions = 0, pubinputs = 0, order2_inputs_accepted = 0;
+	uint64_t cells_done = 0, positions = 0, pubinputs = 0, order2_inputs_accepted = 0, pair_runs = 0, pair_even = 0, even_seed_searches = 0;
 	std::set<std::string> reported;   // one violation line per (key) and cell
 	const unsigned nseeds = (A.tier == "thorough") ? 2 : 1;     // baseline transcripts (coin seeds) per cell
 	for (size_t sj = 0; sj < S.size() * nseeds; sj++)
@@ -249,6 +273,38 @@ int main(int argc, char **argv)
 				}
 			}
 		}
+		// ---------------------------------------------------------------- (3) pair twists of stack components
+		// two components of the same stack (every pair within a card and across cards) are both multiplied by the order-2
+		// element p-1: each factor is a non-member, their product is a member.  Must be refused wherever the verifier
+		// entry tests the stack for membership (or hashes it); recorded for the caller's own stack of class-level verifiers.
+		auto pair_pass = [&](uint64_t seed_, const RunOut &H_, const std::vector<std::string> &proof_) {
+			std::vector<PubIn> P0;
+			if (c->reset) c->reset();
+			c->pubins(H_, P0);
+			bool even_any = stack_exponent_even(H_, tg[0], -1);
+			for (size_t a = 0; a < P0.size(); a++)
+				for (size_t b = a + 1; b < P0.size(); b++)
+				{
+					if (!P0[a].stack || P0[a].stack != P0[b].stack) continue;
+					if (c->reset) c->reset();
+					std::vector<PubIn> P;
+					c->pubins(H_, P);
+					PubIn &x = P[a], &y = P[b];
+					Z ox = x.get(), oy = y.get(), wx, wy;
+					const Z &pp = x.tag.P ? *x.tag.P : c->p;
+					mpz_sub(wx, pp, ox), mpz_sub(wy, pp, oy);
+					bool judged = x.bound && y.bound;
+					RunOut o;
+					try { x.set(wx); y.set(wy); o = run_cell(*c, proof_, seed_, NULL, false); }
+					catch (...) { y.undo(oy); x.undo(ox); throw; }
+					y.undo(oy), x.undo(ox);
+					pair_runs++;
+					if (x.stack == 2 && stack_exponent_even(H_, tg[0], x.card) && stack_exponent_even(H_, tg[0], y.card)) pair_even++;
+					if (!judged && o.accept) order2_inputs_accepted++;
+					judge(x.tag, "in." + x.name + "*" + y.name, "pair-twist", "nonmember", judged ? X_REJECT : X_FREE, o, "pair:" + str(a) + ":" + str(b) + ":" + str(seed_));
+				}
+			(void)even_any;
+		};
 		// ---------------------------------------------------------------- (2) public inputs
 		if (c->pubins)
 		{
@@ -272,12 +328,22 @@ int main(int argc, char **argv)
 					{ Z w; mpz_mul_2exp(w, orig, 1); mpz_add_ui(w, w, 3); vals.push_back(std::make_pair("2v+3", w)); }
 					if (in.tag.k == K_ELEM || in.tag.k == K_COM) { Z w; mpz_sub(w, pp, orig); vals.push_back(std::make_pair("p-v", w)); }
 					for (size_t j = 0; j < in.neighbours.size(); j++) vals.push_back(std::make_pair("neighbour", in.neighbours[j]));
+					if ((in.stack || in.bound) && (in.tag.k == K_ELEM || in.tag.k == K_COM))
+					{
+						// equivalent representations outside 0 < v < p of a card component
+						{ Z w; mpz_add(w, orig, pp); vals.push_back(std::make_pair("v+p", w)); }
+						{ Z w; mpz_mul_ui(w, pp, 3); mpz_add(w, w, orig); vals.push_back(std::make_pair("v+3p", w)); }
+						{ Z w; mpz_sub(w, orig, pp); vals.push_back(std::make_pair("v-p", w)); }
+					}
 					if (k >= vals.size()) break;
 					std::string cls;
 					Expect ex = expect(in.tag, orig, vals[k].second, cls);
 					if (in.tag.k == K_EXACT) ex = mpz_cmp(orig, vals[k].second) ? (in.tag.covered ? X_REJECT : X_FREE) : X_SKIP;
 					if (ex == X_SKIP) continue;
-					if (ex == X_REFUSE) ex = X_FREE;     // the refusal clause speaks about received values, not about what the caller passes
+					// out-of-range but equivalent: judged where the verifier entry itself tests the input (the stack received from the
+					// prover: CheckElement) or hashes it literally; elsewhere the refusal clause speaks about received values only
+					if (ex == X_REFUSE && !in.bound) ex = X_FREE;
+					if (in.bound && cls == "nonmember" && vals[k].first == "p-v") { /* judged below: bound inputs carry no order2 label */ }
 					// class-level verifiers (GrothSKC / GrothVSSHE / VRHE / commitment schemes) leave the membership of the caller's
 					// own inputs (cards, generators) to the caller (CheckGroup, CheckElement on receipt): a non-member -x in place
 					// of x is recorded, not judged (it is accepted whenever the exponent it is raised to happens to be even)
@@ -291,10 +357,34 @@ int main(int argc, char **argv)
 					judge(in.tag, "in." + in.name, vals[k].first, cls, ex, o, "in:" + str(pi) + ":" + vals[k].second.str());
 				}
 			}
+			pair_pass(seed, H, proof);
 			// the statement is restored: the unmodified proof must be accepted again
 			RunOut o = run_cell(*c, proof, seed, NULL);
 			if (!o.accept)
 				printf("{\"t\":\"error\",\"what\":\"%s: honest re-run after public-input mutations rejected (%s)\"}\n", jesc(caseid).c_str(), jesc(o.brief()).c_str());
+		}
+		// A product-only membership test lets a within-card pair twist of s2 through exactly when that card's exponent
+		// (f_i / tau_i) is even.  If this baseline has no even one, further coin seeds are tried (at most 64, each succeeds
+		// with probability >= 1 - 2^-n) and the pair pass is repeated on the first baseline that has one, so that every
+		// interactive Groth/Hoogh cell contributes a pair twist with even exponents.
+		if (c->pubins && c->inter && sidx == 0 && has_stack_exponents(tg[0]) && !stack_exponent_even(H, tg[0], -1))
+		{
+			bool found = false;
+			for (unsigned t = 1000; t < 1064 && !found; t++)
+			{
+				uint64_t seed2 = cell_seed(caseid, t);
+				even_seed_searches++;
+				c->prepare(seed2);
+				if (c->reset) c->reset();
+				RunOut H2 = run_inter(c->prover, c->verifier, seed2, NULL);
+				std::vector<Tag> t0, t1;
+				if (!H2.accept || !c->tags(H2, t0, t1) || t0.size() != H2.pv.size()) continue;
+				if (!stack_exponent_even(H2, t0, -1)) continue;
+				found = true;
+				tg[0] = t0, tg[1] = t1;
+				pair_pass(seed2, H2, proof);
+			}
+			if (!found) printf("{\"t\":\"error\",\"what\":\"%s: no baseline with an even stack exponent in 64 seeds\"}\n", jesc(caseid).c_str());
 		}
 		R.sample(caseid, c->family + ": " + str(H.pv.size()) + "+" + str(H.vp.size()) + " lines, e.g. line 0 '" + (H.pv.empty() ? std::string("") : H.pv[0].substr(0, 20)) + "' every catalogue mutation");
 	}
@@ -307,6 +397,9 @@ int main(int argc, char **argv)
 	R.counters["positions"] = positions;
 	R.counters["public_inputs"] = pubinputs;
 	R.counters["nonmember_caller_inputs_accepted"] = order2_inputs_accepted;
+	R.counters["pair_twist_runs"] = pair_runs;
+	R.counters["pair_twist_runs_with_even_exponents"] = pair_even;
+	R.counters["even_exponent_seed_searches"] = even_seed_searches;
 	R.finish();
 	return 0;
 }
